@@ -14,17 +14,15 @@ namespace Mrm
 /-- what `DomOrder` provides -/
 theorem DomOrder_unpack {d m : Xml} {k : Kind} (h : DomOrder ⟨d, m, k⟩ = true) :
     ∃ rc base ids, rcOf d = some rc ∧
-      completed d = false ∧ storiesExc rc = none ∧ shaped k m = true ∧
+      completed d = false ∧ shaped k m = true ∧
       m.find k.baseTag = some base ∧ containerIds k (namedOf k base) d = some ids ∧
       SomeNodup ids ∧ resolves k (namedOf k base) ids = true := by
   unfold DomOrder at h
   simp only [Bool.and_eq_true] at h
-  obtain ⟨⟨⟨⟨⟨hwf, hc⟩, htim⟩, hsh⟩, _⟩, hrest⟩ := h
-  unfold TimingOk at htim
+  obtain ⟨⟨⟨⟨hwf, hc⟩, hsh⟩, _⟩, hrest⟩ := h
   cases hrc : rcOf d with
   | none => simp [WfRO, hrc] at hwf
   | some rc =>
-    simp only [hrc, Bool.and_eq_true] at htim
     cases hb : m.find k.baseTag with
     | none => simp [hb] at hrest
     | some base =>
@@ -33,7 +31,7 @@ theorem DomOrder_unpack {d m : Xml} {k : Kind} (h : DomOrder ⟨d, m, k⟩ = tru
       | none => simp [hci] at hrest
       | some ids =>
         simp only [hci, Bool.and_eq_true, List.all_eq_true, decide_eq_true_eq] at hrest
-        refine ⟨rc, base, ids, rfl, by simpa using hc, by simpa using htim, hsh, rfl, hci,
+        refine ⟨rc, base, ids, rfl, by simpa using hc, hsh, rfl, hci,
           hrest.1, hrest.2⟩
 
 theorem shaped_mid {k : Kind} {m : Xml} (h : shaped k m = true) : msgIdExc m = none := by
@@ -51,7 +49,6 @@ theorem shaped_send {m base : Xml} (h : shaped .StorySend m = true)
 
 /-- every story-level merge refines the protocol on the story-ID sequence -/
 theorem story_core (k : Kind) (rc base : Xml) (g : Good "story" rc.kids) (hk : k.isStoryLevel = true)
-    (htim : storiesExc rc = none)
     (hsend : k = .StorySend → (base.find "storyBody").isSome = true)
     (hres : resolves k (namedOf k base) (keysOf "story" rc.kids) = true) :
     Eff "story" rc.kids (mergeRc k rc base none)
@@ -60,19 +57,19 @@ theorem story_core (k : Kind) (rc base : Xml) (g : Good "story" rc.kids) (hk : k
   case StorySend => exact story_send rc base g (hsend rfl)
   case StoryAppend => exact story_append rc base
   case StoryDelete => exact story_delete rc base g
-  case StoryInsert => exact story_insert rc base g htim hres
+  case StoryInsert => exact story_insert rc base g hres
   case StoryMove => exact story_move rc base g hres
   case StoryReplace => exact story_replace rc base g hres
   case EAStoryReplace => exact story_eareplace rc base g hres
   case EAStoryDelete => exact story_eadelete rc base g
-  case EAStoryInsert => exact story_eainsert rc base g htim hres
+  case EAStoryInsert => exact story_eainsert rc base g hres
   case EAStorySwap => exact story_swap rc base g hres
   case EAStoryMove => exact story_eamove rc base g hres
 
 theorem order_story (i : MergeInput) (h : DomOrder i = true) (hs : i.k.isStoryLevel = true) :
     holdsOrder i (addK i.k i.d i.m) = true := by
   obtain ⟨d, m, k⟩ := i
-  obtain ⟨rc, base, ids, hrc, hc, htim, hsh, hb, hci, hnd, hres⟩ := DomOrder_unpack h
+  obtain ⟨rc, base, ids, hrc, hc, hsh, hb, hci, hnd, hres⟩ := DomOrder_unpack h
   simp only at hs ⊢
   have hids : keysOf "story" rc.kids = ids := by
     unfold containerIds at hci
@@ -82,7 +79,7 @@ theorem order_story (i : MergeInput) (h : DomOrder i = true) (hs : i.k.isStoryLe
   have g : Good "story" rc.kids := ⟨hnd⟩
   have hed : k.editsRc = true := by cases k <;> first | rfl | exact absurd hs (by decide)
   rw [addK_editsRc k d m rc base hed hc hrc hb, shaped_mid hsh]
-  obtain ⟨e1, e2, _⟩ := story_core k rc base g hs htim (by intro e; subst e; exact shaped_send hsh hb) hres
+  obtain ⟨e1, e2, _⟩ := story_core k rc base g hs (by intro e; subst e; exact shaped_send hsh hb) hres
   unfold holdsOrder
   simp only [hb, containerIds, hrc, rcOf_setRcKids d rc _ hrc, hs, if_true, levelTag,
     Xml.withKids_kids, e1, e2]
@@ -97,7 +94,7 @@ theorem shaped_movemultiple {m base : Xml} (h : shaped .ItemMoveMultiple m = tru
 theorem order_item (i : MergeInput) (h : DomOrder i = true) (hs : i.k.isItemLevel = true) :
     holdsOrder i (addK i.k i.d i.m) = true := by
   obtain ⟨d, m, k⟩ := i
-  obtain ⟨rc, base, ids, hrc, hc, htim, hsh, hb, hci, hnd, hres⟩ := DomOrder_unpack h
+  obtain ⟨rc, base, ids, hrc, hc, hsh, hb, hci, hnd, hres⟩ := DomOrder_unpack h
   simp only at hs ⊢
   have hns : k.isStoryLevel = false := by cases k <;> first | rfl | exact absurd hs (by decide)
   have hed : k.editsRc = true := by cases k <;> first | rfl | exact absurd hs (by decide)
